@@ -291,6 +291,9 @@ FINDINGS = [
          what="lcd.animate(.., speed_ms=-5) (constant or run-time) became a huge unsigned period: the animation never advanced or finished; the host clamps to 0", cases=[]),
     dict(id="KF-C16-negative-durations", property="C16", status="fixed", commit="c5ade3e",
          what="negative durations of play_tone / beep gaps / sweep wrapped around as unsigned long: the tone sounded for weeks (every sound must be bounded)", cases=[]),
+    dict(id="KF-C01-loop-over-existing-variable", property="C01", status="fixed", commit="14991bf",
+         what="'i = 7; for i in range(3): ...' left i at 7 after the loop, 'for n in range(n)' never ran (n < n), a helper looping over its own parameter returned the parameter's value",
+         cases=[prog("C01", P + AB + "i = 7\nfor i in range(3):\n    mon.write(i)\nmon.write(i)\nn = b\nfor n in range(n):\n    mon.write(n)\nmon.write(n)\n", RUN_AB, "loop variables that already exist", space="K")]),
     dict(id="KF-C14-lcd-rebind", property="C14", status="open", commit=None,
          what="one name bound first to a parallel LCD and later to an I2C LCD (or the reverse): both libraries are requested, but the emitter keeps only the first display (one header, one object); outside the documented style, like KF-C05-rebind",
          cases=c14_rebind_cases()),
